@@ -76,7 +76,22 @@ PANICKING_APIS = [
     ("core::time::Duration::mul_f64", "time"),
     ("core::time::Duration::mul_f32", "time"),
     ("tokio::runtime::runtime::Runtime::block_on", "benign"),
+    # allocation of a REQUESTED size: `capacity overflow` panic / allocation-failure abort when the size is not bounded
+    ("alloc::vec::Vec::with_capacity", "capacity"),
+    ("alloc::vec::Vec::reserve", "capacity"),
+    ("alloc::vec::Vec::reserve_exact", "capacity"),
+    ("alloc::vec::Vec::resize", "capacity"),
+    ("alloc::vec::from_elem", "capacity"),
+    ("alloc::string::String::with_capacity", "capacity"),
+    ("alloc::string::String::reserve", "capacity"),
+    ("alloc::collections::vec_deque::VecDeque::with_capacity", "capacity"),
+    ("std::collections::hash::map::HashMap::with_capacity", "capacity"),
+    ("std::collections::hash::set::HashSet::with_capacity", "capacity"),
+    ("alloc::str::<impl str>::repeat", "capacity"),
+    ("alloc::slice::<impl [T]>::repeat", "capacity"),
 ]
+CAPACITY_ARG = {"alloc::vec::Vec::with_capacity": 0, "alloc::string::String::with_capacity": 0, "alloc::collections::vec_deque::VecDeque::with_capacity": 0,
+                "std::collections::hash::map::HashMap::with_capacity": 0, "std::collections::hash::set::HashSet::with_capacity": 0}     # others: argument 1
 # operator traits that panic on overflow when implemented by Duration / Instant / SystemTime
 ARITH_TRAITS = ("core::ops::arith::Add", "core::ops::arith::Sub", "core::ops::arith::Mul", "core::ops::arith::Div",
                 "core::ops::arith::AddAssign", "core::ops::arith::SubAssign", "core::ops::arith::MulAssign",
